@@ -196,7 +196,7 @@ func trieProperty(c *TrieCase, o *trieObs) string {
 		kvs = append(kvs, triesim.KV{Key: triesim.Nibbles(unhex(k)), Val: unhex(v[0])})
 	}
 	if r := triesim.RefRoot(kvs); r != o.root {
-		return fmt.Sprintf("trie root != reference root of content: %x vs %x", o.root, r)
+		return fmt.Sprintf("trie root != reference root of content: %x vs %x", o.root[:], r[:])
 	}
 	if len(o.leaves) != len(m) {
 		return fmt.Sprintf("trie iterates %d leaves, content has %d", len(o.leaves), len(m))
@@ -308,12 +308,18 @@ func runTrieCases(ctx *hx.Ctx, cases []*TrieCase) {
 		ctx.Cov.Bucket("trie.final_nodes", len(obs[i].paths))
 		ctx.Cov.Add("trie.commits", nc)
 		if f := trieProperty(c, &obs[i]); f != "" {
+			if !once("trie:" + classOf(f)) {
+				continue
+			}
 			sc := shrinkTrie(c, func(x *TrieCase) bool { o := runTrieReal(x); return trieProperty(x, &o) != "" })
 			o := runTrieReal(sc)
 			ctx.Violation("trie:"+classOf(trieProperty(sc, &o)), trieProperty(sc, &o), map[string]any{"stream": "trie", "case": sc}, true)
 			continue
 		}
 		if d := trieDisagreement(c, &obs[i], answers[i]); d != "" {
+			if !once("correspondence:trie:" + classOf(d)) {
+				continue
+			}
 			sc := shrinkTrie(c, func(x *TrieCase) bool {
 				o := runTrieReal(x)
 				a, err := hx.AskAll(ctx.Oracle, []string{trieLine(x)})
@@ -327,6 +333,17 @@ func runTrieCases(ctx *hx.Ctx, cases []*TrieCase) {
 	}
 }
 
+var reported = map[string]bool{}
+
+// once reports whether this class has not been reported yet in this run (shrinking is only worth doing once per class)
+func once(class string) bool {
+	if reported[class] {
+		return false
+	}
+	reported[class] = true
+	return true
+}
+
 func classOf(s string) string {
 	if i := strings.IndexAny(s, ":0123456789"); i > 0 {
 		s = s[:i]
@@ -336,9 +353,11 @@ func classOf(s string) string {
 
 func shrinkTrie(c *TrieCase, bad func(*TrieCase) bool) *TrieCase {
 	cur := c
-	for chunk := len(cur.Ops) / 2; chunk >= 1; {
+	budget := 300
+	for chunk := len(cur.Ops) / 2; chunk >= 1 && budget > 0; {
 		shrunk := false
-		for i := 0; i+chunk <= len(cur.Ops); i++ {
+		for i := 0; i+chunk <= len(cur.Ops) && budget > 0; i++ {
+			budget--
 			x := &TrieCase{TTL: cur.TTL, Ops: append(append([]TrieOp(nil), cur.Ops[:i]...), cur.Ops[i+chunk:]...)}
 			if bad(x) {
 				cur, shrunk = x, true
@@ -557,7 +576,7 @@ func (co *commitObs) property() string {
 	for _, a := range co.accts {
 		if len(a.acc.StorageRoot) > 0 {
 			if r := triesim.LeavesRoot(a.sLeaves); !bytes.Equal(r[:], a.acc.StorageRoot) {
-				return fmt.Sprintf("storage root != reference root of content: account %s has %x, content hashes to %x", a.key, a.acc.StorageRoot, r)
+				return fmt.Sprintf("storage root != reference root of content: account %s has %x, content hashes to %x", a.key, a.acc.StorageRoot, r[:])
 			}
 		}
 		if a.acc.IsEmpty() {
@@ -567,7 +586,7 @@ func (co *commitObs) property() string {
 		kvs = append(kvs, triesim.KV{Key: triesim.ParsePath(a.key), Val: v})
 	}
 	if r := triesim.RefRoot(kvs); r != co.root {
-		return fmt.Sprintf("state root != reference root of content: %x vs %x", co.root, r)
+		return fmt.Sprintf("state root != reference root of content: %x vs %x", co.root[:], r[:])
 	}
 	return ""
 }
@@ -745,7 +764,12 @@ func reopenProperty(c *Case, before, after string) string {
 	bs, as := strings.Split(b[1], ","), strings.Split(a[1], ",")
 	exists := make([]bool, len(ba))
 	for i := range ba {
-		exists[i] = strings.HasSuffix(ba[i], ",1")
+		f := strings.Split(ba[i], ",")
+		// existence by the account's own fields (account.go IsEmpty: balance, energy, master, code hash)
+		exists[i] = f[0] != "0" || f[1] != "0" || f[2] != "-" || f[3] != "-"
+		if exists[i] != (f[5] == "1") && f[0] == "0" {
+			return fmt.Sprintf("Exists disagrees with the account's fields: account #%d reads %s", i, ba[i])
+		}
 		if exists[i] && ba[i] != aa[i] {
 			return fmt.Sprintf("re-opened read != committed read: account #%d read %s before commit and %s after re-open", i, ba[i], aa[i])
 		}
@@ -1206,9 +1230,11 @@ func nontrivial(c *Case) bool {
 // drop ops; keep indices meaningful (open of a root that no longer exists is dropped by valid())
 func shrink(c *Case, bad func(*Case) bool) *Case {
 	cur := c
-	for chunk := len(cur.Ops) / 2; chunk >= 1; {
+	budget := 300
+	for chunk := len(cur.Ops) / 2; chunk >= 1 && budget > 0; {
 		shrunk := false
-		for i := 0; i+chunk <= len(cur.Ops); i++ {
+		for i := 0; i+chunk <= len(cur.Ops) && budget > 0; i++ {
+			budget--
 			x := *cur
 			x.Ops = append(append([]Op(nil), cur.Ops[:i]...), cur.Ops[i+chunk:]...)
 			fix(&x)
@@ -1292,13 +1318,23 @@ func runCases(ctx *hx.Ctx, cases []*Case) {
 			}
 		}
 		if f := propertyCheck(c, &runs[i]); f != "" {
+			if !once("state:" + classOf(f)) {
+				continue
+			}
 			sc := shrink(c, func(x *Case) bool { rr := runReal(x); return propertyCheck(x, &rr) != "" })
 			rr := runReal(sc)
-			f = propertyCheck(sc, &rr)
+			if f2 := propertyCheck(sc, &rr); f2 != "" {
+				f = f2
+			} else {
+				sc = c // the failure is order dependent (map iteration in Stage): keep the unshrunk case
+			}
 			ctx.Violation("state:"+classOf(f), f, map[string]any{"stream": "state", "case": sc}, true)
 			continue
 		}
 		if d := disagreement(c, &runs[i], answers[i]); d != "" {
+			if !once("correspondence:state:" + classOf(d)) {
+				continue
+			}
 			bad := func(x *Case) bool {
 				rr := runReal(x)
 				a, err := hx.AskAll(ctx.Oracle, []string{oracleLine(x)})
